@@ -22,8 +22,8 @@ import collections
 from . import detsched as D
 from .common import import_lazy_dataset, stable_hash
 
-ENTRIES = ('stp', 'lpm', 'pf1', 'pft', 'parmap', 'chain', 'chainmid', 'chainpar')
-POOL_ENTRIES = ('lpm', 'pft', 'parmap', 'chain', 'chainmid', 'chainpar')
+ENTRIES = ('stp', 'lpm', 'pf1', 'pft', 'parmap', 'chain', 'chainmid', 'chainpar', 'parpf1')
+POOL_ENTRIES = ('lpm', 'pft', 'parmap', 'chain', 'chainmid', 'chainpar', 'parpf1')
 
 
 class UserExc(Exception):
@@ -256,20 +256,28 @@ def make_body(sc, e, raised_objs):
                 # work without listing the keys up front)
                 base = base.concatenate(base)
             ds = base.map(src_fn)
+            # the thread backend has two names ('t' and 'thread'); they mean
+            # the same
+            T = 't' if (n + b + w) % 2 else 'thread'
             try:
                 if entry == 'pf1':
                     ds = ds.map(fn).prefetch(1, b, 't', catch) if n % 2 else \
                         ds.map(fn).prefetch(1, b, catch_filter_exception=catch)
                 elif entry == 'pft':
-                    ds = ds.map(fn).prefetch(w, b, 't', catch) if n % 2 else \
-                        ds.map(fn).prefetch(w, b, 't', catch_filter_exception=catch)
+                    ds = ds.map(fn).prefetch(w, b, T, catch) if n % 2 else \
+                        ds.map(fn).prefetch(w, b, T, catch_filter_exception=catch)
                 elif entry == 'parmap':
-                    ds = ds.map(fn, num_workers=w, buffer_size=b, backend='t')
+                    ds = ds.map(fn, num_workers=w, buffer_size=b, backend=T)
                 elif entry == 'chain':
                     ds = ds.map(fn).prefetch(w, max(b, w), 't').prefetch(1, b)
                 elif entry == 'chainmid':
                     # the mapped function sits BETWEEN two prefetching stages
                     ds = ds.prefetch(w, max(b, w), 't').map(fn).prefetch(1, b)
+                elif entry == 'parpf1':
+                    # a (catching) single-thread prefetch directly on top of
+                    # a parallel map
+                    ds = ds.map(fn, num_workers=w, buffer_size=max(b, w), backend=T).prefetch(
+                        1, b, catch_filter_exception=catch)
                 elif entry == 'chainpar':
                     # a single-thread prefetch FEEDING a parallel map: the
                     # pool stage consumes a live background iterator
@@ -552,9 +560,9 @@ def judge_errors(sc, r, res, ld):
     srcf = {int(p): k for p, k in ((sc.get('faults') or {}).get('src') or {}).items()}
     # ('chainpar': the source of the parallel map is a prefetch iterator, a
     # failure that comes out of it is a source failure of the parallel map)
-    consumer_side = sc['entry'] in ('lpm', 'parmap', 'chainpar') and srcf
+    consumer_side = sc['entry'] in ('lpm', 'parmap', 'chainpar', 'parpf1') and srcf
     relaxed = consumer_side and where == 'src'
-    bsz = max(sc['b'], sc.get('w', 1)) if sc['entry'] == 'chainpar' else sc['b']
+    bsz = max(sc['b'], sc.get('w', 1)) if sc['entry'] in ('chainpar', 'parpf1') else sc['b']
     if consumer_side and oc == 'raised' and where != 'src':
         ahead = [(p, k) for p, k in sorted(srcf.items()) if pos < p <= pos + bsz + 1]
         for p, k in ahead:
@@ -654,7 +662,7 @@ def judge_readahead(sc, r, res, inflight=0):
     res.maximum(f'pulled_minus_delivered:{key}', mp)
     if sc['entry'] != 'stp':
         res.maximum(f'started_minus_delivered:{key}', ms)
-    if sc['entry'] in ('chain', 'chainmid', 'chainpar'):
+    if sc['entry'] in ('chain', 'chainmid', 'chainpar', 'parpf1'):
         # two buffering stages in a row: the bounds add up
         lim_p = (max(b, sc.get('w', 1)) + 2) + (b + 2)
         lim_s = max(b, sc.get('w', 1)) + (b + 2)
